@@ -183,15 +183,25 @@ static void exec04(const Plan* p) {
     }
     if (kind == 0 && (fr.rn != s.in_size || memcmp(fr.R, s.in, fr.rn))) sim_violation("refdec_mismatch", "independent decoder regenerates other bytes than the compressor's input");
     sim_probe(kind == 0 ? "c04.frames_compressor" : kind == 1 ? "c04.frames_corpus" : kind == 2 ? "c04.frames_legacy" : "c04.frames_faulted_valid");
+    {   int rejected = 0, accepted = 0, first_rej = -1; size_t first_err = 0;
     for (v = 0; v < V_COUNT; v++) {
         VRes res; char pb[48];
         if (v == V_DDICT && !fr.dict) continue;
         if (fr.legacy && (v == V_STABLEOUT || v == V_INPLACE)) continue;
         run_variant(p, &fr, v, fr.rn, &res, 0);
+        /* a wire-faulted frame that the reference decoder still accepts may sit on a point where the specification leaves room
+         * (e.g. bytes after a sequence count of 0): its validity is then disputed, not the decode paths.  Such a frame must be
+         * refused by EVERY path of the library, or accepted by every path with R's output; frames from the compressor and from
+         * the repository's generator stay strict. */
+        if (ZSTD_isError(res.r) && kind == 3) { if (accepted) sim_violation("variant_disagree_on_validity", "decode path %d rejects (%s) a faulted frame that path(s) before it decoded", v, ZSTD_getErrorName(res.r)); if (!rejected) { first_rej = v; first_err = res.r; } rejected++; sim_buf_free(res.out); continue; }
+        if (rejected) sim_violation("variant_disagree_on_validity", "decode path %d accepts a faulted frame that path %d rejected (%s)", v, first_rej, ZSTD_getErrorName(first_err));
+        accepted++;
         if (ZSTD_isError(res.r)) sim_violation("variant_rejects_valid_frame", "decode path %d fails on a frame the reference decoder accepts (%zu bytes -> %zu): %s", v, fr.n, fr.rn, ZSTD_getErrorName(res.r));
         if (res.n != fr.rn || (res.n && memcmp(res.out, fr.R, res.n))) sim_violation("variant_mismatch", "decode path %d produces %zu bytes, reference %zu, or content differs", v, res.n, fr.rn);
         sim_buf_free(res.out);
         snprintf(pb, sizeof pb, "c04.path%d_ok", v); sim_probe(pb);
+    }
+    if (rejected) { sim_probe("c04.faulted_frame_validity_disputed"); goto done; }
     }
     sim_probe_n("c04.coin_huf_flipped", sim_hook_coin_fired(ZSTD_VC_hufSelectDecoder)); sim_probe_n("c04.coin_prefetch_forced", sim_hook_coin_fired(ZSTD_VC_usePrefetchDecoder)); sim_probe_n("c04.coin_bmi2_off", sim_hook_coin_fired(ZSTD_VC_disableBmi2));
     sim_event_bytes("R", fr.R, fr.rn);
